@@ -128,6 +128,9 @@ pub fn c05_scenario(ch: &mut Chooser, thorough: bool) -> Exec {
     let crash_at: Option<usize> = *ch.of("crash_h1_before_step", &crash_points);
     let down: usize = if crash_at.is_some() || h1_finishes { *ch.of("bounce_after_steps", &[0usize, 1, 2, 5]) } else { 0 };
     let bounce_without_crash = crash_at.is_none() && !h1_finishes && ch.flag("bounce_h1_without_crash_at_step_3");
+    // the first client finishes by itself early on (the second one is only registered later, so
+    // for a while every client of the simulation has completed): the hosts keep their clocks
+    let c1_finishes = crash_at.is_none() && ch.flag("first_client_finishes_early");
     let steps = if thorough { 20 } else { 12 };
     // with a short simulation duration every later step reports "ran for duration"; the
     // clocks keep advancing all the same when the caller steps on
@@ -172,7 +175,7 @@ pub fn c05_scenario(ch: &mut Chooser, thorough: bool) -> Exec {
         }
         clock_program(st_h1.clone(), "h1", d1, fin)
     });
-    sim.client("c1", clock_program(st.clone(), "c1", 2, None));
+    sim.client("c1", clock_program(st.clone(), "c1", 2, if c1_finishes { Some(2 * tick + 1) } else { None }));
     // registration step of every host (steps completed at registration)
     let mut reg: Vec<(&'static str, usize)> = vec![("h1", base), ("c1", base)];
     let mut obs: Vec<String> = vec![];
@@ -296,7 +299,7 @@ pub fn c05_scenario(ch: &mut Chooser, thorough: bool) -> Exec {
     if let Some(v) = violation.as_mut() {
         v.sig = v.clause.to_string();
         v.scenario = format!(
-            "c05 tier={} tick={tick} random={random_order} d1={d1} d2={d2} late_at={late_at} finishes={h1_finishes} crash_at={crash_at:?} down={down} bounce_only={bounce_without_crash} limited={limited} victim={victim} epoch={epoch_dur:?}",
+            "c05 tier={} tick={tick} random={random_order} d1={d1} d2={d2} late_at={late_at} finishes={h1_finishes} c1_finishes={c1_finishes} crash_at={crash_at:?} down={down} bounce_only={bounce_without_crash} limited={limited} victim={victim} epoch={epoch_dur:?}",
             if thorough { "thorough" } else { "quick" }
         );
         v.actions = obs.clone();
